@@ -743,7 +743,7 @@ func init() {
 		Require: []string{"remove_executions", "keep_executions", "tipset_checked", "dist_pairs_checked", "restricted_splits_checked", "unmerged_supports_checked",
 			"absent_name_in_list", "prune_after_setname_with_stale_index", "lookups_after_indexed_prune", "lookups_of_removed_tips", "never_indexed_prune",
 			"tip_attached_to_root_removed", "whole_clade_removed", "both_children_of_cherry_removed", "rooted_root_loses_child", "unrooted_root_left_with_two_children",
-			"single_child_node_to_suppress", "merge_absent_with_present_length", "multifurcating_tree", "polytomy_shrinks", "inner_split_becomes_trivial", "large_instances", "cli_prune_args", "cli_prune_args-revert", "cli_prune_tipfile", "cli_prune_tipfile-commas-revert", "cli_prune_comp", "cli_prune_comp-revert"},
+			"single_child_node_to_suppress", "merge_absent_with_present_length", "multifurcating_tree", "polytomy_shrinks", "inner_split_becomes_trivial", "large_instances", "cli_prune_args", "cli_prune_args-revert", "cli_prune_tipfile", "cli_prune_tipfile-commas-revert", "cli_prune_comp", "cli_prune_comp-revert", "cli_prune_tipfile-long-line-crlf"},
 		Run: func(c *Ctx) {
 			// gotree's Tips()/Edges()/Nodes() allocate 16 kB per call: collect less often (garbage is short-lived)
 			defer debug.SetGCPercent(debug.SetGCPercent(1000))
